@@ -8,13 +8,17 @@
 (***************************************************************************)
 EXTENDS GenCli
 NTx == IF Thorough THEN 1500 ELSE 40
-Count == 3 * NTx
+\* one (thorough: two) more sessions whose calldata is larger than 4 MiB / 8 MiB: the printed transaction is the whole transaction
+NHugeTx == IF Thorough THEN 2 ELSE 1
+HugeData == <<4195304, 8389608>>
+Count == 3 * (NTx + NHugeTx)
 ItemAt(g) ==
   LET t    == (g - 1) \div 3
       step == (g - 1) % 3
       kind == Kinds[1 + (t % 3)]
       base == Default(kind, <<50, t>>)
-      f    == IF kind = "legacy" /\ t % 4 = 3 THEN [base EXCEPT !["chainId"] = Absent] ELSE base
+      f0   == IF kind = "legacy" /\ t % 4 = 3 THEN [base EXCEPT !["chainId"] = Absent] ELSE base
+      f    == IF t >= NTx THEN [f0 EXCEPT !["data"] = [k |-> "hexstr", v |-> [rep |-> HugeData[t - NTx + 1], pat |-> "5a"]]] ELSE f0
       doc  == [doc |-> MkDoc(f)]
       acct == PlainAcct(Mnemonics[1 + (t % 3)])
       flags(only) == (IF only THEN <<"signature_only">> ELSE <<>>) \o <<"allow_missing">>
